@@ -72,6 +72,16 @@ def genMixed (pipe : String) (n : Nat) (malformedPct : Nat := 0) : G (List Strin
         pure (Spec.V5.encode h rs, k)
       else do
         let dg ← Sflow.genDatagram
+        -- now and then the first sample is of another enterprise (data_format = enterprise << 12 | format, enterprise ≠ 0):
+        -- not one of the standard samples, whatever its low 12 bits say — the collector refuses the datagram
+        if !dg.samples.isEmpty ∧ dg.agent.length = 4 ∧ !willMutate ∧ (← chance 1 6) then
+          let d0 := Spec.Sflow.encode dg
+          let fmtOff := 28
+          let low := beNat ((d0.drop fmtOff).take 4)
+          let ent ← pick [1, 9, 4413, 0xfffff]
+          let d1 := d0.take fmtOff ++ encBE 4 (ent * 4096 + low % 4096) ++ d0.drop (fmtOff + 4)
+          out := out ++ [pktLine pipe e clock d1, "expect @res err", "expect @count 0"]
+          continue
         pure (Spec.Sflow.encode dg, Spec.Sflow.flowSamples dg)
     if willMutate then
       let d' ← mutate d
